@@ -19,6 +19,8 @@ import sys
 import time
 
 VERIF = os.path.dirname(os.path.abspath(__file__))
+# evidence/ and replays/ live under /verif unless a scratch run (seeded change on a scratch worktree) redirects them
+OUTROOT = os.environ.get("VERIF_OUT_DIR", VERIF)
 sys.path.insert(0, VERIF)
 from vlib import build  # noqa: E402
 from vlib.plans import PLANS  # noqa: E402
@@ -246,7 +248,7 @@ def main():
         inconclusive.extend(agg.harness_fail)
 
     # ---- verdicts
-    os.makedirs(os.path.join(VERIF, "replays", prop), exist_ok=True)
+    os.makedirs(os.path.join(OUTROOT, "replays", prop), exist_ok=True)
     unknown = 0
     known_hits = {}
     allv = []
@@ -268,7 +270,7 @@ def main():
             continue
         unknown += 1
         h = hashlib.sha1(key.encode()).hexdigest()[:12]
-        rp = os.path.join(VERIF, "replays", p, "%s.json" % h)
+        rp = os.path.join(OUTROOT, "replays", p, "%s.json" % h)
         os.makedirs(os.path.dirname(rp), exist_ok=True)
         rec = {"property": p, "key": key, "detail": detail, "count": n, "seed": seed, "tier": tier,
                "witness": first}
@@ -306,7 +308,7 @@ def main():
     if inconclusive:
         print("%s: INCONCLUSIVE: %s" % (prop, "; ".join(inconclusive)[:2000]))
         return 2
-    ev = json.load(open(os.path.join(VERIF, "evidence", "%s.json" % prop)))
+    ev = json.load(open(os.path.join(OUTROOT, "evidence", "%s.json" % prop)))
     print("%s: held on %d evaluations, %d distinct non-trivial cases, variants %s [%.0fs]" %
           (prop, ev["coverage"]["evaluations"], ev["coverage"]["distinct_nontrivial"],
            ",".join(sorted(agg.variants)), dt))
@@ -353,10 +355,10 @@ def write_evidence(prop, plan, tier, seed, agg, t0, known_ids, unknown=0, inconc
         ev["coverage"]["inconclusive"] = inconclusive
     if agg.notes:
         ev["coverage"]["notes"] = agg.notes[:20]
-    os.makedirs(os.path.join(VERIF, "evidence"), exist_ok=True)
-    tmp = os.path.join(VERIF, "evidence", ".%s.json.tmp%d" % (prop, os.getpid()))
+    os.makedirs(os.path.join(OUTROOT, "evidence"), exist_ok=True)
+    tmp = os.path.join(OUTROOT, "evidence", ".%s.json.tmp%d" % (prop, os.getpid()))
     json.dump(ev, open(tmp, "w"), indent=1, default=str)
-    os.replace(tmp, os.path.join(VERIF, "evidence", "%s.json" % prop))
+    os.replace(tmp, os.path.join(OUTROOT, "evidence", "%s.json" % prop))
 
 
 if __name__ == "__main__":
